@@ -44,6 +44,11 @@ var branchCmd = &cobra.Command{
 
 		// add branch
 		if len(args) == 1 {
+			// no commit yet, so there is nothing the new branch can point to
+			if client.Head.Commit == nil {
+				return ErrInvalidHEAD
+			}
+
 			addBranchName := args[0]
 			addBranchHash := client.Head.Commit.Hash
 
